@@ -84,15 +84,29 @@ Section Constraints.
   Definition cfilter (k : Constraints) (l : list (list T)) : list (list T) :=
     filter (compliant k) l.
 
-  (** [random_angle] (constraints.rs:194-212) with the uniform variates made
-      explicit: [u] in [0,1) is what [gen_range(0.0..len)] scales by [len]. *)
-  Definition random_angle (from to u : T) : T :=
-    if from <? to then from + u * (to - from)
-    else
-      let range_length := nabs (two_pi - (from - to)) in
-      let segment := u * range_length in
-      if segment <? (two_pi - from) then from + segment
-      else to + (segment - (two_pi - from)).
+  (** [random_angle] (constraints.rs, nested in random_angles) with the uniform variate made explicit:
+      [gen_range(0.0..w)] is [u * w] for some u in [0,1); it panics when the range is empty (w <= 0).
+      Returns the width handed to gen_range ([None]: gen_range not called) and the angle. *)
+  Definition sample_width (from to : T) : option (option T) :=
+    if from <? to then Some (Some (to - from))
+    else if from =? to then Some (Some two_pi)
+    else match advance (adv_fuel from to) from to with
+         | None => None
+         | Some e => if from <? e then Some (Some (e - from)) else Some None
+         end.
+  Definition random_angle (from to u : T) : option T :=
+    match sample_width from to with
+    | None => None
+    | Some (Some w) => Some (from + u * w)
+    | Some None => Some from
+    end.
+  Fixpoint random_angles (from to us : list T) : option (list T) :=
+    match from, to, us with
+    | f :: from', t :: to', u :: us' =>
+        match random_angle f t u, random_angles from' to' us' with
+        | Some x, Some xs => Some (x :: xs) | _, _ => None end
+    | _, _, _ => Some []
+    end.
 End Constraints.
 Arguments Inf {T}.
 Arguments Fin {T} t.
